@@ -782,6 +782,9 @@ class Interp:
                 kwargs.update(self.eval(k.value, env))
             else:
                 kwargs[k.arg] = self.eval(k.value, env)
+        h = self.hooks.get("before_call")
+        if h is not None:
+            h(self, fn, args, kwargs, node, env)
         return self.call(fn, args, kwargs, node)
 
     def call(self, fn, args, kwargs, node=None):
@@ -1067,6 +1070,22 @@ class Interp:
 
     def s_FunctionDef(self, node, env):
         env.assign(node.name, Closure(self, node, env, node.name))
+
+    s_AsyncFunctionDef = s_FunctionDef
+
+    def e_Await(self, node, env):
+        # cooperative scheduling: the awaited expression's model supplies the value that arrives; everything between two
+        # awaits is atomic, so invariants proved at the suspension points hold in every interleaving
+        v = self.eval(node.value, env)
+        h = self.hooks.get("await")
+        return h(self, v, node, env) if h is not None else v
+
+    def s_AsyncWith(self, node, env):
+        for it in node.items:
+            v = self.eval(it.context_expr, env)
+            if it.optional_vars is not None:
+                self.bind_target(it.optional_vars, v, env)
+        self.exec_block(node.body, env)
 
     def s_Try(self, node, env):
         try:
